@@ -10,15 +10,15 @@ def run(ctx):
     info = sessin.build(ctx)
     ctx.assumptions += sessin.ASSUME + ['counterparty model: replays application messages as PossDup resends (OrigSendingTime <= SendingTime), runs of administrative messages as one GapFill, answers before continuing',
                                         'CompIDs match; decoding succeeds; the session is active']
-    ks = [(3, 1, 0)] if ctx.tier == 'quick' else [(3, 1, 0), (4, 1, 0), (4, 2, 0)]
+    ks = [(3, 1, 0)] if ctx.tier == 'quick' else [(3, 1, 0), (4, 1, 0), (4, 2, 0), (5, 1, 2), (7, 1, 2)]
     ks += [tuple(int(x) for x in e.split(',')) for e in os.environ.get('VF_C20_EXTRA', '').split() if e]
     for k, loss, fl in ks:
         w = k * (loss + 1) + 1
         ctx.add(Harness('C20_gap_k%d_l%d' % (k, loss) + ('_f%d' % fl if fl else ''), VERIF + '/harness/C20_gap.c', defines=defs + ['K=%d' % k, 'MAXLOSS=%d' % loss, 'MAXFLIGHT=%d' % fl, 'VF_MAXCOPY=40', 'VF_OUTMAX=%d' % (k + 1)], unwind=max(12, w + 2),
                         unwindset=sessin.US,
-                        timeout=900 if ctx.tier == 'quick' else 2400, object_bits=14 if k > 4 else 12, functions=FUN, stubs=sessin.STUBS,
+                        timeout=900 if ctx.tier == 'quick' else (2400 if k < 7 else 4200), object_bits=14 if k > 4 else 12, functions=FUN, stubs=sessin.STUBS,
                         bounds='%d process() steps from a continuous session in sync at an arbitrary number n in 1..2^31-257 (FIX SeqNum domain); at most %d own messages lost before each new message; '
-                               'lost and new messages are application or administrative at the generator\'s choice' % (k, loss),
+                               'lost and new messages are application or administrative at the generator\'s choice%s' % (k, loss, '; up to %d messages already in flight between our ResendRequest and the start of the replay, at most 2 unanswered requests (answered one after the other)' % fl if fl else ''),
                         desc='k-step recovery against the conformant counterparty generator'))
     for role, rn in ((0, 'acceptor'), (1, 'initiator')):
         ctx.add(Harness('C20_logon_%s' % rn, VERIF + '/harness/C20_logon.c', defines=defs + ['ROLE=%d' % role, 'VF_MAXCOPY=40'], unwind=12,
